@@ -1,11 +1,27 @@
 (* C15/Driver.v — entry points of the correspondence run (extracted to OCaml). *)
-From RM Require Import C15.Model C15.Schema C15.Widths C15.Utf8.
+From RM Require Import C15.Model C15.Schema C15.Widths C15.Utf8 C15.Pretty.
 From RM Require C19.Model.
 Open Scope Z_scope.
 
-(* the modelled view of the report, serialised; None = a trap on the modelled path *)
-Definition run_state (p : profile) (s : state) : option (list Z) :=
-  match json_of_state p s with Ret j => Some (serialise j) | _ => None end.
+(* the modelled report; None = a trap on the modelled path.  keep_soft = false: the state's soft_errors value holds a
+   float (outside the model's JSON numbers), the harness removed the member from the real view and the model drops it too *)
+Definition drop_soft (j : json) : json :=
+  match j with JObj l => JObj (filter (fun kv => negb (list_eqb (fst kv) k_soft_errors)) l) | x => x end.
+Definition run_report (p : profile) (keep_soft : bool) (s : state) : option json :=
+  match json_of_state p s with Ret j => Some (if keep_soft then j else drop_soft j) | _ => None end.
+(* print_json(pretty = false) / print_json(pretty = true) *)
+Definition render_compact (j : json) : list Z := serialise j.
+Definition render_pretty (j : json) : list Z := pretty j.
+(* the state's soft_errors value arrives as the UTF-8 bytes of its compact rendering *)
+Definition parse_soft (bytes : list Z) : option json :=
+  match utf8_decode (length bytes) bytes with Some cps => parse cps | None => None end.
+(* the REAL pretty output is accepted by the whitespace-tolerant parser of c15_pretty_parse and is the same value as the
+   real compact output *)
+Definition pretty_ok (pretty_doc compact_doc : list Z) : bool :=
+  match parse_ws pretty_doc, parse compact_doc with
+  | Some a, Some b => list_eqb (serialise a) (serialise b)
+  | _, _ => false
+  end.
 
 (* the model's parser on a document produced by the real writer: it must be accepted and
    re-serialise to the same code points *)
